@@ -459,9 +459,50 @@ def handleLd (req : Json) : Json :=
     ("discarded", .arr (im.discarded.map fun i => Json.arr #[.str (t2s i.path),
         (match i.member with | some m => .str (t2s m) | none => .null), .str (t2s i.sec)]).toArray)]
 
+/-- op `twostep`: the order of the input sections after the two-step link of partial mode
+(Slinkyv.Ld2): request objects as for `ld`, partials = [[object path, script text], …], main = script text,
+ordinary = the ordinary script of the same document. `two_exact` is the same link with the main
+script's statements for the partial objects taken by exact name (no `*`). -/
+def handleTwoStep (req : Json) : Json :=
+  let objs : List Ld.InSec :=
+    match req.getObjVal? "objects" with
+    | .ok (.arr a) => a.toList.filterMap fun x =>
+        match x with
+        | .arr #[.str p, m, .str sec, .num sz, .num al] =>
+          some { path := s2t p, member := (match m with | .str mm => some (s2t mm) | _ => none),
+                 sec := s2t sec, size := sz.mantissa.toNat, align := al.mantissa.toNat }
+        | _ => none
+    | _ => []
+  let partials : List (Str × List Line) :=
+    match req.getObjVal? "partials" with
+    | .ok (.arr a) => a.toList.filterMap fun x =>
+        match x with
+        | .arr #[.str p, .str t] => some (s2t p, parseScript (s2t t))
+        | _ => none
+    | _ => []
+  let main := parseScript (s2t (getStr req "main"))
+  let ordinary := parseScript (s2t (getStr req "ordinary"))
+  let pobjs := partials.map (·.1)
+  let exact := main.map fun l => match l with
+    | .input k p m s w => if p ∈ pobjs then Line.input k p m s false else .input k p m s w
+    | l => l
+  let show_ (l : List (Ld.InSec × Str)) : Json := .arr (l.map fun i => Json.arr #[.str (t2s i.1.path),
+        (match i.1.member with | some m => .str (t2s m) | none => .null), .str (t2s i.1.sec), .str (t2s i.2)]).toArray
+  -- `Ld.twoStep` with every input section labelled by the partial object it arrives in
+  let labelled (mainLines : List Line) : List (Ld.InSec × Str) :=
+    let comps := partials.flatMap fun p => Ld.relink objs p.1 p.2
+    (Ld.takes (comps.map (·.sec)) false false [] mainLines).flatMap fun cs =>
+      (comps.filter fun c => c.sec = cs).flatMap fun c => c.items.map fun i => (i, c.obj)
+  Json.mkObj [
+    ("two", show_ (labelled main)),
+    ("two_exact", show_ (labelled exact)),
+    ("two_plain", .bool ((labelled main).map (·.1) == Ld.twoStep objs partials main)),
+    ("one", show_ ((Ld.oneStep objs ordinary).map fun i => (i, [])))]
+
 def handle (req : Json) : Json :=
   match getStr req "op" with
   | "ld" => handleLd req
+  | "twostep" => handleTwoStep req
   | "prune" => handlePrune req
   | "eqmod" => handleEqmod req
   | "files" => handleFiles req
